@@ -90,6 +90,11 @@ instance : Monad Rand where
     | (.ok a, s') => f a s'
     | (.fail e, s') => (.fail e, s')
 
+/-- `g`, run on a fresh random source whose answers are `stream`, ends normally with `r`, and every answer given
+respected the range the code asked for -/
+def Yields {α : Type} (g : Rand α) (stream : List Nat) (r : α) : Prop :=
+  ∃ s', g (Src.start stream) = (.ok r, s') ∧ s'.Conforms
+
 /-- `raise` -/
 def raise {α : Type} (f : Fail) : Rand α := fun s => (.fail f, s)
 
@@ -181,22 +186,25 @@ def _root_.OsmoVerif.Trxd.RxMsg.randHdr (m : RxMsg) : Rand RxMsg := do
   let m := { m with fn := some fn, tn := some tn, rssi := some rssi, toa256 := some toa }
   if m.ver ≥ 1 then
     let mod ← choice Modulation.all
-    let set ← if mod = Modulation.gmsk then randint 0 3 else randint 0 1
+    let set ← (if mod = Modulation.gmsk then randint 0 3 else randint 0 1 : Rand Int)
     let tsc ← choice Gen.Trxd.tscRange
     let ci ← randint Gen.Trxd.ciMin Gen.Trxd.ciMax
     pure { m with modType := some mod, tscSet := some set, tsc := some tsc, ci := some ci }
   else
     pure m
 
+/-- the first statement of `RxMsg.rand_burst`: `if length is None: length = self.mod_type.bl` -/
+def _root_.OsmoVerif.Trxd.RxMsg.burstLength (m : RxMsg) : Option Int → Rand Int
+  | some l => pure l
+  | none =>
+    match m.modType with
+    | some mod => pure (mod.bl : Int)
+    | none => raise .attributeError
+
 /-- `RxMsg.rand_burst(length)` (`length = None` when the caller gives none): `if length is None: length = self.mod_type.bl`;
 `self.burst = array('b', [random.randint(-127, 127) for _ in range(length)])` -/
 def _root_.OsmoVerif.Trxd.RxMsg.randBurst (m : RxMsg) (length : Option Int) : Rand RxMsg := do
-  let length ← (match length with
-    | some l => pure l
-    | none =>
-      match m.modType with
-      | some mod => pure (mod.bl : Int)
-      | none => raise .attributeError : Rand Int)
+  let length ← m.burstLength length
   let bits ← randints (-127) 127 length.toNat
   if bits.all (fun v => decide (-128 ≤ v ∧ v ≤ 127)) then
     pure { m with burst := some bits }
